@@ -4,7 +4,7 @@ from __future__ import annotations
 import ast
 import re
 
-from ..astx import (un, chain, call_name, paths, params, walk_shallow, single_assignments, inline, enclosing, names_read,
+from ..astx import (reachable_private, un, chain, call_name, paths, params, walk_shallow, single_assignments, inline, enclosing, names_read,
                     inline_self_calls, private_helper_owners, seq)
 from ..core import rule, fixture_for, Unknown
 from .c10 import GETITEMS, GENERATORS, _flatten_try
@@ -115,13 +115,21 @@ def check_name_injective(ctx, repo):
             insensitive.append((q, node, "no dependence on the operand keys"))
     # store sites
     for q in GETITEMS:
-        fn = inline_self_calls(repo, q.rsplit(".", 1)[0], ctx.func(q))
-        stores = [n for n in walk_shallow(fn) if isinstance(n, ast.Assign) and any(
-            isinstance(t, ast.Subscript) and _is_numspace(t.value) for t in n.targets)]
-        if not stores:
+        # the (possibly inherited) method with its private helpers inlined, and the helpers themselves (a template method may
+        # do the renaming and the store in a hook of its own)
+        regions = [inline_self_calls(repo, q.rsplit(".", 1)[0], ctx.func(q))] + [f for _, f in reachable_private(repo, q)[1:]]
+        found, seen_sites = [], set()
+        for fn in regions:
+            for n in walk_shallow(fn):
+                if isinstance(n, ast.Assign) and any(isinstance(t, ast.Subscript) and _is_numspace(t.value) for t in n.targets):
+                    key = (getattr(n, "lineno", 0), un(n))
+                    if key not in seen_sites:
+                        seen_sites.add(key)
+                        found.append((fn, n))
+        if not found:
             ctx.note(q, "no by-name store")
             continue
-        for st in stores:
+        for fn, st in found:
             tgt = [t for t in st.targets if isinstance(t, ast.Subscript) and _is_numspace(t.value)][0]
             c = f"{q}#numspace-store"
             name_expr = tgt.slice
@@ -199,8 +207,12 @@ def token_atomic(ctx):
     code then updates (two threads filling the cache concurrently read the same size and collide); accepted:
     the identity of the freshly generated function object, an atomic counter, a uuid."""
     for q in GETITEMS:
-        fn = inline_self_calls(ctx.repo, q.rsplit(".", 1)[0], ctx.func(q))
-        for n in walk_shallow(fn):
+        regions = [inline_self_calls(ctx.repo, q.rsplit(".", 1)[0], ctx.func(q))] + [f for _, f in reachable_private(ctx.repo, q)[1:]]
+        seen_sites = set()
+        for n in [n_ for fn in regions for n_ in walk_shallow(fn)]:
+            if (getattr(n, "lineno", 0), un(n)) in seen_sites:
+                continue
+            seen_sites.add((getattr(n, "lineno", 0), un(n)))
             tgt = None
             if isinstance(n, ast.Assign):
                 tgt = [t for t in n.targets if isinstance(t, ast.Attribute) and t.attr == "__name__"]
@@ -522,7 +534,7 @@ def closed_functions(ctx):
         elif isinstance(g, ast.Call) and call_name(g) in ("globals", "vars", "locals"):
             ctx.violation(c, f"generated code is executed with {un(g)} as globals: it can read and be affected by "
                              f"mutable module state", site, module=mname)
-        elif isinstance(g, ast.Name) and g.id in params(fn) and level < 2:
+        elif isinstance(g, ast.Name) and g.id in params(fn) + [x.arg for x in fn.args.kwonlyargs] and level < 2:
             # the globals are handed in by the callers of this helper: every call site decides
             name = qual.split(".")[-1]
             sites = 0
